@@ -5,36 +5,40 @@
 #include "api.h"
 #define K 16
 void harness(void) {
-  void* a4 = w_hll_arr_new(4, 4); void* a6 = w_hll_arr_new(6, 4); void* a8 = w_hll_arr_new(8, 4);
+  void* a4 = w_h4_new(4); void* a6 = w_h6_new(4); void* a8 = w_h8_new(4);
   ASSERT(a4 && a6 && a8, "construction");
-  ASSERT(w_hll_arr_is_empty(a4) && w_hll_arr_is_empty(a6) && w_hll_arr_is_empty(a8), "fresh arrays are empty");
+  ASSERT(w_h4_is_empty(a4) && w_h6_is_empty(a6) && w_h8_is_empty(a8), "fresh arrays are empty");
   uint8_t oracle[K]; for (int i = 0; i < K; i++) oracle[i] = 0;
+  static const uint32_t prefix[] = { PREFIX 0 };     /* concrete coupons applied first (constant-folded by symex); the trailing 0 is ignored */
+  for (unsigned c = 0; c + 1 < sizeof(prefix) / sizeof(prefix[0]); c++) {
+    uint32_t slot = prefix[c] & 0x3ffffff, val = prefix[c] >> 26;
+    w_h4_coupon(a4, prefix[c]); w_h6_coupon(a6, prefix[c]); w_h8_coupon(a8, prefix[c]);
+    if (val > oracle[slot]) oracle[slot] = (uint8_t)val;
+  }
   for (int c = 0; c < NC; c++) {
     uint32_t slot = (uint32_t)ND_RANGE(0, K - 1), val = (uint32_t)ND_RANGE(1, 63);
     uint32_t coupon = (val << 26) | slot;
-    ASSERT(w_hll_arr_coupon(a4, coupon) == 0 && w_hll_arr_coupon(a6, coupon) == 0 && w_hll_arr_coupon(a8, coupon) == 0, "coupon update accepted, array stays in place");
+    ASSERT(w_h4_coupon(a4, coupon) == 0 && w_h6_coupon(a6, coupon) == 0 && w_h8_coupon(a8, coupon) == 0, "coupon update accepted, array stays in place");
     if (val > oracle[slot]) oracle[slot] = (uint8_t)val;
   }
-  uint8_t v4[K], v6[K], v8[K];
-  for (int i = 0; i < K; i++) { v4[i] = 0xff; v6[i] = 0xff; v8[i] = 0xff; }
-  ASSERT(w_hll_arr_values(a4, v4, K) == K && w_hll_arr_values(a6, v6, K) == K && w_hll_arr_values(a8, v8, K) == K, "iterator over all slots yields k entries");
   uint32_t nmin = 0; uint8_t mn = 255;
   for (int i = 0; i < K; i++) if (oracle[i] < mn) mn = oracle[i];
   for (int i = 0; i < K; i++) {
-    ASSERT(v8[i] == oracle[i], "HLL_8 register == max of the coupon values for that slot");
-    ASSERT(v6[i] == oracle[i], "HLL_6 register == max of the coupon values for that slot");
-    ASSERT(v4[i] == oracle[i], "HLL_4 logical register (nibble + cur_min, or aux exception) == max of the coupon values for that slot");
+    ASSERT(w_h8_value(a8, i) == oracle[i], "HLL_8 register == max of the coupon values for that slot");
+    ASSERT(w_h6_value(a6, i) == oracle[i], "HLL_6 register == max of the coupon values for that slot");
+    ASSERT(w_h4_value(a4, i) == oracle[i], "HLL_4 logical register (nibble + cur_min, or aux exception) == max of the coupon values for that slot");
     if (oracle[i] == mn) nmin++;
-    OBSERVE(v4[i]);
+    OBSERVE(oracle[i]);
   }
-  ASSERT((int)w_hll_arr_is_empty(a8) == (NC == 0), "is_empty iff no coupon");
-  ASSERT(w_hll_arr_cur_min(a4) == mn && w_hll_arr_num_at_cur_min(a4) == nmin, "HLL_4 cur_min / num_at_cur_min consistent with the registers");
+  int any = (NC > 0) || (sizeof(prefix) / sizeof(prefix[0]) > 1);
+  ASSERT((int)w_h8_is_empty(a8) == !any && (int)w_h4_is_empty(a4) == !any, "is_empty iff no coupon");
+  ASSERT(w_h4_cur_min(a4) == mn && w_h4_num_at_cur_min(a4) == nmin, "HLL_4 cur_min / num_at_cur_min consistent with the registers");
 #ifdef CONVERT
-  void* c = w_hll_arr_convert(a4, CONVERT); uint8_t vc[K]; for (int i = 0; i < K; i++) vc[i] = 0xff;
-  ASSERT(c && w_hll_arr_values(c, vc, K) == K, "conversion accepted");
-  for (int i = 0; i < K; i++) ASSERT(vc[i] == oracle[i], "converting a copy to another register width keeps every register");
-  w_hll_arr_delete(c);
+  void* c8 = w_h8_from_h4(a4); void* c6 = w_h6_from_h4(a4); void* c4 = w_h4_from_h8(a8);
+  ASSERT(c8 && c6 && c4, "conversion accepted");
+  for (int i = 0; i < K; i++) ASSERT(w_h8_value(c8, i) == oracle[i] && w_h6_value(c6, i) == oracle[i] && w_h4_value(c4, i) == oracle[i], "converting a copy to another register width keeps every register");
+  w_h8_delete(c8); w_h6_delete(c6); w_h4_delete(c4);
 #endif
-  w_hll_arr_delete(a4); w_hll_arr_delete(a6); w_hll_arr_delete(a8);
+  w_h4_delete(a4); w_h6_delete(a6); w_h8_delete(a8);
   WITNESS();
 }
